@@ -10,7 +10,7 @@ from . import common
 
 LEVEL = 'other'
 EXPLANATION = (
-    'Static analysis (nullable-value flow + confinement). (R1) the target keys that Rule._extend_targets / Tableau._get_group_application set to None when an optimisation option is off (candidate_score, min/max_candidate_score, group_score, min_group_score) must not reach an ordering comparison or arithmetic anywhere in the package without a dominating None/option guard -- this is the "no option combination makes the build raise" clause; the None-assignments themselves are re-derived from the source on every run. (R2) the search options are read only in the three reviewed choice functions, each of which returns an element of its input collection; no rule, helper or model reads an option. (R3) build() is literally the step() loop. Independence from tie-break order and premise order/multiplicity is declined (schedule-quantified run-time behaviour). (R5) every closure rule\'s MRO-resolved scorers folded on the target its own hook builds return a number. (R6) the helper bookkeeping folds of C04.R7 imported: no constant, world or node is lost because of when it arrived (premise order / multiplicity). (R7) no starvation behind the fairness gate (C02.R8). (R8) branch lookup exactness on branches beyond the index cut-off (C05.R5): repeated premises cannot hide a node.')
+    'Static analysis (nullable-value flow + confinement). (R1) the target keys that Rule._extend_targets / Tableau._get_group_application set to None when an optimisation option is off (candidate_score, min/max_candidate_score, group_score, min_group_score) must not reach an ordering comparison or arithmetic anywhere in the package without a dominating None/option guard -- this is the "no option combination makes the build raise" clause; the None-assignments themselves are re-derived from the source on every run. (R2) the search options are read only in the three reviewed choice functions, each of which returns an element of its input collection; no rule, helper or model reads an option. (R3) build() is literally the step() loop. Independence from tie-break order and premise order/multiplicity is declined (schedule-quantified run-time behaviour). (R5) every closure rule\'s MRO-resolved scorers folded on the target its own hook builds return a number. (R6) the helper bookkeeping folds of C04.R7 imported: no constant, world or node is lost because of when it arrived (premise order / multiplicity). (R7) no starvation behind the fairness gate (C02.R8). (R8) branch lookup exactness on branches beyond the index cut-off (C05.R5): repeated premises cannot hide a node. (R9) limit guards (C02.R7). (R10) the identity rule folded over branches with several worlds (C01.R9): which world is opened first cannot switch a substitution off.')
 TRUSTED = ['CPython ast', 'sa.astq.guards_of']
 ASSUMPTIONS = ['targets are accessed by string-literal keys (as everywhere in the package)']
 
